@@ -319,7 +319,8 @@ func run(c *vf.Ctx) {
 	nq := c.N(220, 600)
 	var sampleMu sync.Mutex
 	samples := 0
-	var tmu sync.Mutex
+	var tmu, capMu sync.Mutex
+	capCount := map[string]int{}
 	vf.Parallel(nh, workers, func(hi int) {
 		r := c.Rand("hist", hi)
 		tmu.Lock()
@@ -495,6 +496,23 @@ func run(c *vf.Ctx) {
 			sample := !bad && qi%c.N(37, 97) == 0
 			if !bad && !sample {
 				continue
+			}
+			if bad {
+				// at most a few git confirmations per (clause, relation) so that a systematic break stays cheap
+				ck := "err"
+				if gerr == nil && len(q.Missing) > 0 {
+					ck = "missing-" + m.objs[q.Missing[0]].typ + q.Rel + tclass
+				} else if gerr == nil {
+					ck = "foreign" + q.Rel
+				}
+				capMu.Lock()
+				capCount[ck]++
+				over := capCount[ck] > 4
+				capMu.Unlock()
+				if over {
+					c.Count("failures_over_confirmation_cap", 1)
+					continue
+				}
 			}
 			// ---- confirm with real git: exact reachable sets of wants and of existing haves
 			gitSet := func(ids []string) (map[string]bool, bool) {
